@@ -200,7 +200,7 @@ def build_cases(ctx, packets, specs):
     quick = ctx.quick()
     cases = []
 
-    def add(cat, name, pkt, st='S0', now=NOW, changed=None, expect_drop=False):
+    def add(cat, name, pkt, st='S0', now=NOW, changed=None, expect_drop=False, intact_override=None):
         g = specs[name]
         kind = g['kind']
         sealed = SEALED[name]
@@ -228,6 +228,8 @@ def build_cases(ctx, packets, specs):
                     if i == 42 and (pkt[i] ^ orig[i]) == 0x80:
                         continue          # bit 255 of the ephemeral value: X25519 ignores it, payload unmodified
                     intact = False
+        if intact_override is not None:
+            intact = intact_override
         cases.append(dict(id='c%d' % len(cases), st=st, now=now, kind=kind, pkt=pkt.hex(),
                           meta=dict(cat=cat, base=name, spec=g, sealed_intact=intact, pristine=changed is None,
                                     changed=sorted(changed)[:8] if changed else None, expect_drop=expect_drop)))
@@ -299,7 +301,67 @@ def build_cases(ctx, packets, specs):
         add('auth/nobook', name, packets[name], st='S_nobook')
         add('auth/pristine', name, packets[name])
         add('auth/pristine@void', name, packets[name], st='S_void')
+    # 5. parser quirks the model reproduces (Go slice capacity, map overwrite): rebuilt extension blocks
+    for (kind, br), name in sorted(oks.items()):
+        if kind != 'tls':
+            continue
+        for qn, q, intact in rebuild_variants(packets[name]):
+            add('quirk/' + qn, name, q, changed=set(), intact_override=intact)
     return cases
+
+
+def split_hello(pkt):
+    """genuine hello -> (bytes before the extensions length field, [(type, body)])"""
+    p = 43
+    p += 1 + pkt[p]
+    p += 2 + ((pkt[p] << 8) | pkt[p + 1])
+    p += 1 + pkt[p]
+    head = pkt[:p]
+    end = p + 2 + ((pkt[p] << 8) | pkt[p + 1])
+    p += 2
+    exts = []
+    while p < end:
+        typ = (pkt[p] << 8) | pkt[p + 1]
+        ln = (pkt[p + 2] << 8) | pkt[p + 3]
+        exts.append((typ, pkt[p + 4:p + 4 + ln]))
+        p += 4 + ln
+    return head, exts
+
+
+def join_hello(head, raw_exts):
+    """raw_exts: bytes of the extension block.  Fixes extension, handshake and record lengths."""
+    body = head[9:] + len(raw_exts).to_bytes(2, 'big') + raw_exts      # after record(5)+type(1)+len(3)
+    hs = b'\x01' + len(body).to_bytes(3, 'big') + body
+    return head[:3] + len(hs).to_bytes(2, 'big') + hs
+
+
+def ext(typ, body, declared=None):
+    return typ.to_bytes(2, 'big') + (len(body) if declared is None else declared).to_bytes(2, 'big') + body
+
+
+def rebuild_variants(pkt):
+    head, exts = split_hello(pkt)
+    ks = [b for t, b in exts if t == 0x33][0]
+    others = b''.join(ext(t, b) for t, b in exts if t != 0x33)
+    out = []
+    # identity (sanity of the rebuild): accepted
+    out.append(('rebuild-identity', join_hello(head, b''.join(ext(t, b) for t, b in exts)), True))
+    # a bogus key_share BEFORE the genuine one: ret[typ] = data overwrites, the last one wins -> accepted
+    out.append(('dup-keyshare-last-wins', join_hello(head, ext(0x33, b'\x00\x02\x00\x00') + others + ext(0x33, ks)), True))
+    # the genuine one first, a bogus one last -> rejected although the sealed bytes are all there
+    out.append(('dup-keyshare-bogus-last', join_hello(head, ext(0x33, ks) + others + ext(0x33, b'\x00\x02\x00\x00')), True))
+    # key_share with declared length 0 as the LAST extension, followed by bytes that parse as one more extension:
+    # parseKeyShare's input has len 0 but cap > 0, so input[0:2] does not panic and it reads the follower
+    follower = b'\x00\x05\x00\x1d' + b'\x00\x07' + bytes(27)
+    out.append(('keyshare-cap-overread', join_hello(head, others + ext(0x33, b'', 0) + follower), False))
+    # same with nothing behind it: cap 0 -> input[0:2] panics -> "malformed key_share"
+    out.append(('keyshare-empty-last', join_hello(head, others + ext(0x33, b'', 0)), False))
+    # no key_share at all: nil slice -> panic -> "malformed key_share"
+    out.append(('keyshare-missing', join_hello(head, others), False))
+    # the genuine key share reachable only THROUGH the over-read: declared length 2 (just the list length), body behind it
+    # parses as extension 0x001d of length 0x20: accepted, the sealed bytes are intact
+    out.append(('keyshare-via-overread', join_hello(head, others + ext(0x33, ks[:2], 2) + ks[2:]), True))
+    return out
 
 
 def parse_go(line):
